@@ -6,7 +6,9 @@
 //!      and deletions on an already built index (and never-built ones);
 //!  (b) the LMDB map is k pages, for every k from the smallest LMDB accepts up to the first
 //!      size at which the whole scenario succeeds, plus a margin;
-//!  (c) the temp directory is unusable (missing, a regular file, /proc/self).
+//!  (c) the temp directory is unusable (missing, a regular file, /proc/self), also when it was
+//!      configured before `prepare_changing_distance` re-typed the writer;
+//!  (d) for every cancel position again: the retry goes through the *same* `ArroyBuilder`.
 
 use std::collections::BTreeMap;
 use std::path::{Path, PathBuf};
@@ -234,6 +236,47 @@ impl FaultSys {
                 }
             }
         }
+        // the same ArroyBuilder used for the faulted build and, after the abort, for the retry
+        // (build borrows the transaction for the call only): every cancel position again
+        if c.kind == FaultKind::CancelAtEveryPoll {
+            for n in 0..=polls {
+                self.same_builder_retry(w, &s, c, tmp, n, &model)?;
+            }
+        }
+        // the temp directory is configured on a writer that then changes the metric: the new writer must still use it
+        if c.kind == FaultKind::Tmpdir && c.metric == Metric::Euclidean && model.len() > c.faulted.split_after.unwrap_or(c.dim) {
+            for bad in [tmp.join("does-not-exist"), PathBuf::from("/proc/self")] {
+                let mut wtxn = s.env.write_txn().unwrap();
+                let r = crate::common::catch(|| -> Result<(), arroy::Error> {
+                    let mut writer = arroy::Writer::<arroy::distances::Euclidean>::new(crate::common::arroy_db::<arroy::distances::Euclidean>(s.db), 0, c.dim);
+                    writer.set_tmpdir(&bad);
+                    let writer = writer.prepare_changing_distance::<arroy::distances::Manhattan>(&mut wtxn)?;
+                    let mut rng = <rand::rngs::StdRng as rand::SeedableRng>::seed_from_u64(c.faulted.seed);
+                    let mut b = writer.builder(&mut rng);
+                    if let Some(t) = c.faulted.n_trees {
+                        b.n_trees(t);
+                    }
+                    if let Some(sa) = c.faulted.split_after {
+                        b.split_after(sa);
+                    }
+                    b.build(&mut wtxn)
+                });
+                w.count("faulted_builds", 1);
+                let what = format!("temp directory {bad:?} set before prepare_changing_distance");
+                match r {
+                    Err(p) => return Err((format!("E/build-panicked:{}", p.site()), format!("{what}: the build panicked at {}: {}", p.location, p.message))),
+                    Ok(Ok(())) => return Err(("E/tmpdir-ignored".into(), format!("{what}: the build of the re-typed writer succeeded with {} items — the configured temp directory was not used", model.len()))),
+                    Ok(Err(e)) => match ErrKind::of(&e) {
+                        ErrKind::Io(_) | ErrKind::HeedIo(_) => w.count("reported_io_error", 1),
+                        other => return Err((format!("E/wrong-error:{}", other.tag()), format!("{what}: the build returned {e}"))),
+                    },
+                }
+                wtxn.abort();
+                if committed(&s) != before {
+                    return Err(("E/abort-left-trace".into(), format!("{what}: after aborting, the database differs from before the transaction")));
+                }
+            }
+        }
         // retry without the fault
         let mut wtxn = s.env.write_txn().unwrap();
         let (r, _) = with_metric!(c.metric, D => run_build::<D>(s.db, &mut wtxn, 0, c.dim, &c.faulted, Some(tmp), None));
@@ -243,6 +286,50 @@ impl FaultSys {
         wtxn.commit().unwrap();
         w.count("start_states", 1);
         Ok(())
+    }
+}
+
+impl FaultSys {
+    /// One `ArroyBuilder`: build cancelled from poll `n` on, abort, then — the callback answering
+    /// false again — build in a fresh transaction. The retry must succeed with a valid index.
+    fn same_builder_retry(&self, w: &mut Worker, s: &Scratch, c: &FaultCfg, tmp: &Path, n: u64, model: &BTreeMap<u32, Vec<u32>>) -> Result<(), (String, String)> {
+        use std::sync::atomic::{AtomicU64, Ordering};
+        let polls = AtomicU64::new(0);
+        let limit = AtomicU64::new(n);
+        let what = format!("one ArroyBuilder: build cancelled from poll {n} on, abort, then build again with the callback answering false");
+        let r = crate::common::catch(|| -> Result<Option<Kv>, (String, String)> {
+            with_metric!(c.metric, D => {
+                let mut writer = arroy::Writer::<D>::new(crate::common::arroy_db::<D>(s.db), 0, c.dim);
+                writer.set_tmpdir(tmp);
+                let mut rng = <rand::rngs::StdRng as rand::SeedableRng>::seed_from_u64(c.faulted.seed);
+                let mut b = writer.builder(&mut rng);
+                if let Some(t) = c.faulted.n_trees {
+                    b.n_trees(t);
+                }
+                if let Some(sa) = c.faulted.split_after {
+                    b.split_after(sa);
+                }
+                b.cancel(|| polls.fetch_add(1, Ordering::Relaxed) >= limit.load(Ordering::Relaxed));
+                let mut wtxn = s.env.write_txn().unwrap();
+                let first = b.build(&mut wtxn);
+                wtxn.abort();
+                if !matches!(first, Err(arroy::Error::BuildCancelled)) {
+                    return Ok(None); // the build never asked again (or another verdict, judged by the main enumeration)
+                }
+                limit.store(u64::MAX, Ordering::Relaxed);
+                let mut wtxn = s.env.write_txn().unwrap();
+                b.build(&mut wtxn).map_err(|e| ("E/retry-failed:same-builder".to_string(), format!("{what}: the retry returned {e}")))?;
+                let kv = s.dump(&wtxn);
+                judge_valid(s, &wtxn, &kv, c, model, w).map_err(|(cl, m)| (format!("E/retry:same-builder:{cl}"), format!("{what}: {m}")))?;
+                wtxn.abort();
+                Ok(Some(kv))
+            })
+        });
+        w.count("same_builder_retries", 1);
+        match r {
+            Ok(x) => x.map(|_| ()),
+            Err(p) => Err((format!("E/build-panicked:{}", p.site()), format!("{what}: panic at {}: {}", p.location, p.message))),
+        }
     }
 }
 
